@@ -4,6 +4,7 @@ import (
 	_ "verif/harness/checks"
 	_ "verif/harness/checks/grpa"
 	_ "verif/harness/checks/grpb"
+	_ "verif/harness/checks/grpc"
 	_ "verif/harness/checks/grpd"
 	_ "verif/harness/checks/sim"
 	"verif/harness/lib"
